@@ -3,6 +3,7 @@ import ChfVerif.Lemmas.BerMarshalSafe
 import ChfVerif.Lemmas.BerInt
 import ChfVerif.Gen.Schema
 import ChfVerif.Lemmas.X690WellFormed
+import ChfVerif.Lemmas.BerMarshalErr
 /-
   C04 — the BER encoder's output is that of an independent X.690 encoder, and marshalling never panics.
 
@@ -82,6 +83,75 @@ theorem C04_optional_omitted (p : Params) (t : Ty) (r : Fields) (vs : Vals)
 theorem C04_oid (p : Params) (v : Val) : marshal .oid p v = .err := by
   cases v <;> simp [marshal]
 theorem C04_nil_ptr (t : Ty) (p : Params) : marshal (.ptr t) p .nil = .err := by rw [marshal]
+
+/-! ### "either returns an error or …": which values are errors, and that their position does not matter -/
+
+/-- C04 (errors, exactness): for a type whose OPTIONAL members are nil-able the encoder returns an error exactly when
+    the independent X.690 encoder has no encoding for the value (CHOICE without / with an impossible selection, nil where
+    a value is needed, OBJECT IDENTIFIER, open type, unsupported kind, value of the wrong shape) — at any depth. -/
+theorem C04_error_iff_unencodable (t : Ty) (p : Params) (v : Val) (ht : optNilable t = true) :
+    marshal t p v = .err ↔ encode t p v = none := by
+  have h := marshal_isOk_eq_encode_isSome.1 t p v ht
+  have hnp := C04_no_panic t p v ht
+  cases hm : marshal t p v <;> cases he : encode t p v <;> simp_all [Res.isOk]
+
+/-- … and returns octets exactly when it has one -/
+theorem C04_ok_iff_encodable (t : Ty) (p : Params) (v : Val) (ht : optNilable t = true) :
+    (∃ b, marshal t p v = .ok b) ↔ (encode t p v).isSome = true := by
+  have h := marshal_isOk_eq_encode_isSome.1 t p v ht
+  cases hm : marshal t p v <;> cases he : encode t p v <;> simp_all [Res.isOk]
+
+/-- C04 (errors, position): a SEQUENCE OF / SET OF is an error exactly when SOME element is — the check is made for every
+    element, not only for the last one. -/
+theorem C04_list_error_iff (t : Ty) (p : Params) (vs : Vals) (ht : optNilable t = true) :
+    marshal (.slice t) p (.list vs) = .err ↔
+      vs.any (fun v => (marshal t { p with tagNumber := none } v).isErr) = true := by
+  have h := marshalElems_isErr t { p with tagNumber := none } (fun v => marshal_no_panic.1 t _ v ht) vs
+  rw [marshal]
+  cases hm : marshalElems t { p with tagNumber := none } vs <;> simp_all [Res.isErr]
+
+/-- an element that cannot be marshalled makes the list an error whatever stands before and BEHIND it -/
+theorem C04_bad_element_anywhere (t : Ty) (p : Params) (pre post : Vals) (v : Val) (ht : optNilable t = true)
+    (hv : marshal t { p with tagNumber := none } v = .err) :
+    marshal (.slice t) p (.list (pre.append (.cons v post))) = .err := by
+  rw [marshal, marshalElems_err_anywhere t _ ht pre post v hv]
+
+/-- a present member that cannot be marshalled makes the SEQUENCE / SET an error, and so does any later one -/
+theorem C04_bad_member (p : Params) (t : Ty) (r : Fields) (v : Val) (vs : Vals)
+    (hn : (p.optional && !nilable t) = false) (hpres : (p.optional && isNilVal v) = false)
+    (hv : marshal t p v = .err) : marshalFields (.cons p t r) (.cons v vs) = .err :=
+  marshalFields_err_of_member p t r v vs hn hpres hv
+theorem C04_bad_later_member (p : Params) (t : Ty) (r : Fields) (v : Val) (vs : Vals)
+    (ho : optNilableFs (.cons p t r) = true) (hr : marshalFields r vs = .err) :
+    marshalFields (.cons p t r) (.cons v vs) = .err :=
+  marshalFields_err_of_rest p t r v vs ho hr
+
+/-- all of it for every CDR schema type of the working tree -/
+theorem C04_schema_errors (name : String) (t : Ty) (hmem : (name, t) ∈ Gen.schema) (p : Params) (v : Val) :
+    (marshal t p v = .err ↔ encode t p v = none) ∧
+    ∀ pre post : Vals, marshal t { p with tagNumber := none } v = .err →
+      marshal (.slice t) p (.list (pre.append (.cons v post))) = .err := by
+  have h := List.all_eq_true.mp schema_ok (name, t) hmem
+  simp only [Bool.and_eq_true] at h
+  exact ⟨C04_error_iff_unencodable t p v h.1, fun pre post hv => C04_bad_element_anywhere t p pre post v h.1 hv⟩
+
+/-- the shapes of the seeded region, computed: an unselected CHOICE, a nil pointer and an OBJECT IDENTIFIER in front of a
+    good element are errors for the encoder and have no reference encoding -/
+example :
+    let ch : Ty := .choice (.cons ⟨false, some 0, false, false, false, 0⟩ (.ptr (.int 64)) (.cons ⟨false, some 1, false, false, false, 0⟩ .oid .nil))
+    let good : Val := .choice 1 (.cons (.int 5) (.cons .nil .nil))
+    marshal (.slice ch) {} (.list (.cons (.choice 0 (.cons .nil (.cons .nil .nil))) (.cons good .nil))) = .err ∧
+    marshal (.slice ch) {} (.list (.cons (.choice 2 (.cons .nil (.cons (.bytes [42, 3]) .nil))) (.cons good .nil))) = .err ∧
+    marshal (.slice (.ptr ch)) {} (.list (.cons .nil (.cons good .nil))) = .err ∧
+    encode (.slice ch) {} (.list (.cons (.choice 0 (.cons .nil (.cons .nil .nil))) (.cons good .nil))) = none := by
+  intro ch good
+  refine ⟨?_, ?_, ?_, ?_⟩
+  · exact C04_bad_element_anywhere ch {} .nil (.cons good .nil) _ (by decide) (by rw [marshal]; simp)
+  · exact C04_bad_element_anywhere ch {} .nil (.cons good .nil) _ (by decide)
+      (by rw [marshal]; simp [Fields.length]; rw [marshalAlt, marshalAlt, marshal])
+  · exact C04_bad_element_anywhere (.ptr ch) {} .nil (.cons good .nil) _ (by decide) (by rw [marshal])
+  · exact (C04_error_iff_unencodable (.slice ch) {} _ (by decide)).mp
+      (C04_bad_element_anywhere ch {} .nil (.cons good .nil) _ (by decide) (by rw [marshal]; simp))
 
 /-- non-vacuity: a concrete value meets the hypotheses and both sides produce the same bytes
     (INTEGER -129 under an EXPLICIT high tag number 40) -/
